@@ -11,6 +11,7 @@ open CrCube.Driver CrCube.Driver.Counts CrCube.Driver.SliceApi
 
 def pcellOfJson (j : Json) : Except String PCell :=
   match j with
+  | .null => pure .null
   | .obj _ => do
     let c ← (← getField j "?").getInt?
     pure (.unavail c)
